@@ -25,6 +25,19 @@ Inductive call :=
 | KBegin | KEnd | KArrStart | KArrEnd | KArrDelim | KLineBreak
 | KObjectData (o : list N) | KKey (k : list N).
 
+(* compact descriptions of the long inputs / outputs of the boundary cases
+   (65535, 65536, ... elements): the driver checks on the Go side that the real
+   bytes equal these patterns and prints the pattern instead of a literal *)
+Definition pat_iter {A} (n : N) (f : N -> list A) : list A :=
+  snd (N.iter n (fun p => let i := fst p - 1 in (i, f i ++ snd p)) (n, [])).
+(* 'a' + i mod 26 *)
+Definition pat (n : N) : list N := pat_iter n (fun i => [97 + i mod 26]).
+Definition patb (n : N) : list bool := pat_iter n (fun i => [i mod 3 =? 0]).
+Definition patb_out (n : N) : list N := pat_iter n (fun i => [if i mod 3 =? 0 then 245 else 244]).
+(* strings "" and "a" alternating, and their encodings 60 / 61 61 *)
+Definition pats (n : N) : list (list N) := pat_iter n (fun i => [if i mod 2 =? 0 then [] else [97]]).
+Definition pats_out (n : N) : list N := pat_iter n (fun i => if i mod 2 =? 0 then [96] else [97; 97]).
+
 Definition tables : Type := list (Z * N * N) * list (Z * Z * N).
 
 Fixpoint lookup_time (tbl : list (Z * N * N)) (s : Z) (n : N) : N :=
